@@ -45,6 +45,10 @@ def run(ctx):
     r2.expect_min(6)
 
     r3 = rep.rule('C16.3-timeout-computation', 'R-TABLE', 'select timeout: zero iff wakeup <= recent, otherwise distance + SLEEP_FUZZ >= 1; every assignment through wakeup is a min-update or a zero under a work-pending condition; every due-time source present')
+    # the earliest due time is what prioq_min() says it is: the heap operations serve entries in time order (C15 rule 5)
+    from rules import C15 as _c15
+    for inst_, v_ in sorted(_c15.heap_sites(db, rep, db.program('qmail-send'), ctx.deep(4, 5)).items()):
+        r3.check(v_[0], 'prioq:' + inst_, v_[1], v_[2], v_[3])
     attach(r3, qsend.selprep_sites(db), prefixes=['selprep:', 'main:'])
     ms = qsend.analyse_main(db, rep)
     attach(r3, ms, only={'main:ALRM-handled-before-the-wakeup-time-is-computed', 'main:HUP-handled-before-the-wakeup-time-is-computed'})
